@@ -21,7 +21,7 @@ func init() {
 
 var c02Contexts = []string{"body", "action", "invariant", "custom-inner", "custom-outer", "cleanup-body", "cleanup-action", "cleanup-custom", "goroutine", "cleanup-nested", "cleanup-nested-custom"}
 var c02Positions = []string{"first", "middle", "last", "after-skips", "late-step"}
-var c02Variants = []string{"plain", "then-skip", "then-invalid-draw", "skip-in-cleanup", "skip-in-later-cleanup", "skip-in-earlier-cleanup", "deferred-skip", "body-skip"}
+var c02Variants = []string{"plain", "then-skip", "then-invalid-draw", "skip-in-cleanup", "skip-in-later-cleanup", "skip-in-earlier-cleanup", "deferred-skip", "body-skip", "then-more-draws"}
 
 func c02Scenarios(cfg runCfg) []Scenario {
 	var out []Scenario
@@ -39,7 +39,7 @@ func c02Scenarios(cfg runCfg) []Scenario {
 					}
 					for _, va := range c02Variants {
 						switch va {
-						case "then-skip", "then-invalid-draw":
+						case "then-skip", "then-invalid-draw", "then-more-draws":
 							// only where code runs after the signal: non-fatal kinds in body / action / custom function
 							if !kindNonFatal(k) || (ctx != "body" && ctx != "action" && ctx != "custom-inner" && ctx != "custom-outer") {
 								continue
@@ -113,6 +113,16 @@ func c02Body(sp *c02Spec) func(x *X) {
 			case "then-invalid-draw":
 				x.ev("invalid draw after signal")
 				impossibleGen.Draw(t, "never")
+			case "then-more-draws":
+				// the callback goes on drawing after a non-fatal failure: plain values and values of other Custom
+				// generators, through the T it signalled on and - legitimately, it is the same test case - through the
+				// enclosing T it has captured
+				x.ev("more draws after signal")
+				inner := rapid.Custom(func(it *rapid.T) int { return rapid.IntRange(0, 9).Draw(it, "n") + 1 })
+				rapid.Bool().Draw(t, "more")
+				inner.Draw(t, "nested")
+				inner.Draw(x.t, "nested-through-the-enclosing-T")
+				rapid.SliceOfN(inner, 0, 3).Draw(x.t, "nested-slice")
 			}
 		}
 		if sp.variant == "skip-in-cleanup" && fire {
